@@ -25,6 +25,7 @@ RULES = {
     "R10.4": "empty rotation: ReturnToSender(original message), no write, no mutation",
     "R10.5": "peer_connected pushes the new id exactly once on registering paths",
     "R10.6": "PUSH/DEALER send delegate with Message::Message(message) and propagate the error",
+    "R10.F": "foundation clauses re-evaluated as necessary conditions: " + ", ".join(['identity']),
 }
 
 
@@ -110,7 +111,12 @@ def analyse_sender(f, rep, co, label, push_before_write_ok=False, param_pred=Non
     rep.floor("R10.3", "%s: write-error exits" % label, nerr, 1)
 
 
+DEPENDS = ['identity']     # foundation groups re-evaluated as necessary conditions (rules/found.py)
+
+
 def run(ctx, f, rep):
+    from . import found
+    found.import_groups(ctx, f, rep, 'C10', DEPENDS)
     # the shared round-robin sender, by role: an async fn that is not a trait method and takes ids off the SegQueue rotation
     def scope_calls(b, name):
         return any(fn and fn["name"] == name and "SegQueue" in fn["path"] for k in pathq.scope(f, b) for bb, t, fn in k.calls())
